@@ -134,19 +134,51 @@ def shard(i: int, n: int, tier: str, seed: int) -> Result:
                     if neg and fd.neg_max is not None and -fd.neg_max != fd.pos_max:
                         continue
                     _one(res, ctx, det, fd, rng, text, fam, k, rm, lo, hi, a, neg, over_gap)
+            # operands that are not dyadic reach the rounding through the MPFR fallback (a round-to-odd intermediate with
+            # p + k + 2 digits): offsets 1/3, 1/5, 5/7, 9/10, 1/100 of the gap as Fractions, and one as a decimal string
+            if k is not None:
+                for frac in (Fraction(1, 3), Fraction(1, 5), Fraction(5, 7), Fraction(9, 10), Fraction(1, 100)):
+                    a = lo + gap * frac
+                    for neg in (False, True):
+                        if neg and fd.neg_max is not None and (fd.neg_max == 0 or -fd.neg_max != fd.pos_max):
+                            continue
+                        _one(res, ctx, det, fd, rng, text, fam, k, rm, lo, hi, a, neg, over_gap, present='fraction')
+                dec = _decimal_in_gap(lo, hi)
+                if dec is not None:
+                    _one(res, ctx, det, fd, rng, text, fam, k, rm, lo, hi, Fraction(dec), False, over_gap, present='decimal:' + dec)
         if nctx <= 2:
             res.sample({'context': text, 'gaps': [[str(g[0]), str(g[1])] for g in gaps], 'operands_per_gap': steps + 1, 'draws': 1 << kk})
     res.counters['contexts'] = nctx
     return res
 
 
-def _one(res, ctx, det, fd, rng, text, fam, k, rm, lo, hi, a, neg, over_gap):
+def _decimal_in_gap(lo: Fraction, hi: Fraction):
+    """a short decimal literal strictly inside (lo, hi) that is not dyadic, or None"""
+    from decimal import Decimal, getcontext
+    getcontext().prec = 60
+    mid = lo + (hi - lo) * Fraction(3, 10)
+    d = Decimal(mid.numerator) / Decimal(mid.denominator)
+    for digits in range(2, 40):
+        q = +d.quantize(Decimal(1).scaleb(d.adjusted() - digits)) if d != 0 else d
+        f = Fraction(q)
+        if lo < f < hi and (f.denominator & (f.denominator - 1)) != 0:
+            return format(q, 'f') if abs(q.adjusted()) < 25 else str(q)
+    return None
+
+
+def _one(res, ctx, det, fd, rng, text, fam, k, rm, lo, hi, a, neg, over_gap, present='realfloat'):
     from ..oracle import rnd
     from ..oracle.describe import to_val, val_str
     from ..monitors.roundmon import same_val
     from fpy2.number import RealFloat
     v = -a if neg else a
-    x = RealFloat.from_rational(v)
+    if present == 'realfloat':
+        x = RealFloat.from_rational(v)
+    elif present == 'fraction':
+        x = Fraction(v)
+    else:
+        x = present.split(':', 1)[1]
+    res.count('operands_as_' + present.split(':')[0])
     # effective number of random bits
     gap = hi - lo
     if k is None:
@@ -190,7 +222,7 @@ def _one(res, ctx, det, fd, rng, text, fam, k, rm, lo, hi, a, neg, over_gap):
     outcomes = {}
     ndraw = 1 << kk
     res.evaluations += 1
-    mech = {'family': fam, 'k': 'None' if k is None else 'k', 'mode': rm, 'over_gap': over_gap}
+    mech = {'family': fam, 'k': 'None' if k is None else 'k', 'mode': rm, 'over_gap': over_gap, 'operand_as': present.split(':')[0]}
 
     def bad(problem, **kw):
         res.violate({'property': PROP, 'context': text, 'operand': str(v), 'lo': str(lo), 'hi': str(hi),
